@@ -15,7 +15,8 @@ DOCS.append(bs4.BeautifulSoup(SVG_DOC, 'html5lib'))
 DOCS.append(bs4.BeautifulSoup('<root><span id="a"/><p id="b" dir="ltr"/><x-y id="c"/></root>', 'xml'))
 
 NSMAPS = [None, {'x': 'urn:x', 'svg': 'http://www.w3.org/2000/svg', 'html': 'http://www.w3.org/1999/xhtml'},
-          {'': 'http://www.w3.org/1999/xhtml', 'svg': 'http://www.w3.org/2000/svg'}]
+          {'': 'http://www.w3.org/1999/xhtml', 'svg': 'http://www.w3.org/2000/svg'},
+          {'': 'http://www.w3.org/2000/svg', 'html': 'http://www.w3.org/1999/xhtml'}]
 CUSTOM = {':--z': 'p, span', ':--d': ':dir(ltr)'}
 
 ALTS = selgen.general_pool() + [
@@ -43,7 +44,12 @@ NO_MATCH = [':active', ':current', ':focus', ':focus-visible', ':focus-within', 
             ':host-context(p)', 'a:hover', 'p:focus']
 PLAIN_ALTS = ['p', '.a', '*', 'span']
 FOREIGN = ['foreignObject', 'linearGradient', 'svg|foreignObject', 'p, foreignObject', 'circle', 'svg|circle, linearGradient']
-FOCUS = [(a, b) for a in HTML_ONLY for b in SENSITIVE] + [(b, a) for a in HTML_ONLY for b in SENSITIVE] + \
+# the nested lists the library's own HTML-only definitions are built from, written by the user, next to those pseudo-classes
+INNER = ['*|*:is(a, area)', ':is(a, area)', '*|*:is(input, select, textarea)', '*|*:is(button, input)', ':is(form, fieldset)',
+         ':is(input, button, select, textarea, fieldset, optgroup, option)', ':not(:is(a, area))', '*|*:is(legend, optgroup)']
+INNER_B = [':any-link', ':link', ':required', ':optional', ':default', ':disabled', ':enabled', ':checked', ':read-write']
+FOCUS = [(a, b) for a in INNER for b in INNER_B] + [(b, a) for a in INNER for b in INNER_B] + \
+    [(a, b) for a in HTML_ONLY for b in SENSITIVE] + [(b, a) for a in HTML_ONLY for b in SENSITIVE] + \
     [(a, b) for a in PLAIN_ALTS for b in NO_MATCH] + [(b, a) for a in PLAIN_ALTS for b in NO_MATCH] + \
     [(a, b) for a in FOREIGN for b in PLAIN_ALTS] + [(b, a) for a in FOREIGN for b in PLAIN_ALTS]
 NFOCUS = len(FOCUS)
